@@ -844,7 +844,7 @@ impl Prop for C14 {
     }
     fn assumptions(&self) -> Vec<String> {
         vec![
-            "decided relative to the repository's simulated kernel (VirtualSystem pipes: PIPE_BUF atomicity, PIPE_SIZE capacity) Added kinds: two processes writing PIPE_BUF-sized records to one pipe (no record torn), two processes reading one pipe (sums add up); crash-injection runs (liveness); every program ends by printing the shell's descriptor table; engine (p): 20/60 seeded histories per case on one pipe of the simulated kernel (read, write, dup, close, O_NONBLOCK switches, zero-timeout select; sizes around PIPE_BUF and the capacity) against a POSIX pipe model - results byte for byte, a blocked operation is woken exactly when it can proceed, select agrees with readiness; engine (w): 20/60 seeded histories per case on the real WakerSet / ScheduledWakerQueue against a reference model (cells dropped, emptied, re-filled at arbitrary points).".into(),
+            "decided relative to the repository's simulated kernel (VirtualSystem pipes: PIPE_BUF atomicity, PIPE_SIZE capacity) Added kinds: two processes writing PIPE_BUF-sized records to one pipe (no record torn), two processes each writing a payload beyond the pipe capacity in large chunks to one open file description (pipeline and command substitution; both payloads arrive completely, each in its own order), two processes reading one pipe (sums add up); crash-injection runs (liveness); every program ends by printing the shell's descriptor table; engine (p): 20/60 seeded histories per case on one pipe of the simulated kernel (read, write, dup, close, O_NONBLOCK switches, zero-timeout select; sizes around PIPE_BUF and the capacity) against a POSIX pipe model - results byte for byte, a blocked operation is woken exactly when it can proceed, select agrees with readiness; engine (w): 20/60 seeded histories per case on the real WakerSet / ScheduledWakerQueue against a reference model (cells dropped, emptied, re-filled at arbitrary points).".into(),
             "SIGPIPE is not modelled by the simulated kernel (EPIPE only); the early-exit case therefore checks liveness and prefix integrity only".into(),
             "sampling of schedules and sizes, not enumeration".into(),
         ]
